@@ -119,7 +119,9 @@ var fileForms = []fileForm{
 	{"crlf", func(t string) (string, bool) { return strings.ReplaceAll(t, "\n", "\r\n"), true }},
 	{"cr", func(t string) (string, bool) { return strings.ReplaceAll(t, "\n", "\r"), true }},
 	{"bom", func(t string) (string, bool) { return "\xef\xbb\xbf" + t, true }},
-	{"indent-blank-lines", func(t string) (string, bool) { return "\n\n\t " + strings.ReplaceAll(t, "\n", " \n\n\t  ") + "\n\n", true }},
+	{"indent-blank-lines", func(t string) (string, bool) {
+		return "\n\n\t " + strings.ReplaceAll(t, "\n", " \n\n\t  ") + "\n\n", true
+	}},
 	{"no-final-newline", func(t string) (string, bool) { return strings.TrimRight(t, "\n"), true }},
 	{"one-line", func(t string) (string, bool) {
 		if strings.Contains(t, "#") {
